@@ -27,8 +27,9 @@ CLAIMED = {
                 'C02_rebinding (per-type re-binding by id, uniform and mixed), C02_steps / C02_steps_latest / C02_step_of_name (numeric '
                 'step order, latest step) and C02_timeseries_is_stack / C02_stack_spec are kernel-checked over token-level models; tied to '
                 'the tree by the generated header constants (decide) and by model-rendered .res files read with the real reader.',
-        'note': 'token-level theorems; character-level lexer tied by correspondence; solver .res layout is a hand spec; >= 1 nodal '
-                'variable; unreferenced nodes are a separately labelled stream',
+        'note': 'theorems reach the characters of the file (C02_parse_render_chars, C02_single_chars: printer / whitespace lexer proved); '
+                'solver .res layout is a hand spec; >= 1 nodal variable; pd.read_csv quoting / CR handling in read_file not modelled; '
+                'unreferenced nodes are a separately labelled stream',
         'technique': 'Lean 4 proof (parse-render inversion, chunk/unchunk with constant stride, sorting lemmas) + differential correspondence on rendered result files',
         'design': '4/C02',
     },
@@ -46,7 +47,8 @@ CLAIMED = {
                 'elemental offset formulas agree), C04_roundtrip(_printed) (read (write m) = expected m for all node/element/variable '
                 'counts, parametric in print/parse), C04_tet2_first_order, C04_nothing_else_changes, C04_bound_to_same_ids are '
                 'kernel-checked; tied to the tree byte for byte on the written file and by float bit patterns on the read side.',
-        'note': 'parse(print v) = v for Python float repr is trusted; token-level model; NaN compared as one token',
+        'note': 'parse(print v) = v for Python float repr is trusted; theorems reach the characters of the file (C04_roundtrip_chars); '
+                'variables with their own id order proved for Cfg.fixed (C04_bound_to_same_ids_own_order); NaN compared as one token',
         'technique': 'Lean 4 proof (positional reader over segment lemmas) + byte-level differential correspondence of the UCD file and bit-pattern oracle',
         'design': '4/C04',
     },
@@ -107,7 +109,8 @@ CLAIMED = {
                 'C10_volume (surface flux = sum of element volumes, cancellation lemma over additive groups), C10_same_face_set, '
                 'C10_fistr_same_keys, C10_obj_roundtrip are kernel-checked; hypotheses are Boolean functions the driver evaluates per mesh; '
                 'tied by differential face sets / OBJ text and exact-rational volumes.',
-        'note': 'quad faces measured by the centroid-fan flux (exact for planar faces); OBJ round trip on token lines; STL export not runnable here',
+        'note': 'quad faces measured by the centroid-fan flux (exact for planar faces); OBJ round trip proved down to characters '
+                '(C10_obj_roundtrip_chars); STL export not runnable here',
         'technique': 'Lean 4 proof (boundary cancellation lemma, scan lemma, table obligations) + differential + exact-rational correspondence',
         'design': '4/C10',
     },
